@@ -202,6 +202,8 @@ class Exec:
             st.assume(v.len >= 0)                       # python lists / arrays have non-negative length
         elif t is ty.Mat and isinstance(v, ty.MatV):
             st.assume(z3.And(v.rows >= 0, v.cols >= 0))
+        elif t is ty.CMat and isinstance(v, ty.CMatV):
+            st.assume(z3.And(v.re.rows >= 0, v.re.cols >= 0, v.im.rows == v.re.rows, v.im.cols == v.re.cols))
         elif isinstance(t, ty.MapT) and isinstance(v, ty.MapV) and v.keys is not None:
             st.assume(v.keys.len >= 0)
             from . import maplib
@@ -1116,7 +1118,8 @@ class Exec:
         if isinstance(v, float):
             v = Fraction(repr(v)) if v == v and v not in (float("inf"), float("-inf")) else v
         if isinstance(v, complex):
-            raise Unsupported("complex literal", e)
+            from .cplx import CplxV
+            return [Out("val", CplxV(Fraction(repr(v.real)), Fraction(repr(v.imag))), st)]
         return [Out("val", v, st)]
 
     def expr_JoinedStr(self, e, st):
@@ -1239,6 +1242,12 @@ class Exec:
         res = list(raises)
         for vals, s in acc:
             conj = []
+            if len(e.ops) == 1 and not isinstance(e.ops[0], (ast.In, ast.NotIn, ast.Is, ast.IsNot, ast.Eq, ast.NotEq)) \
+                    and any(isinstance(x, (ty.SeqV, ty.MatV)) for x in vals):
+                # numpy: an ordering comparison with an array operand is elementwise and yields a boolean array
+                from . import cplx
+                res.append(Out("val", cplx.compare_arrays(self, s, e.ops[0], vals[0], vals[1], e), s))
+                continue
             for op, a, b in zip(e.ops, vals[:-1], vals[1:]):
                 conj.append(self.lib.compare(self, s, op, a, b, e))
             if all(isinstance(c, bool) for c in conj):
@@ -1638,17 +1647,28 @@ class Exec:
         old = st.fork()
         self.havoc_modifies(c, st, targs)
         ret = None
+        oldv = self.view(old, targs)
         if c.ret is not None:
             if c.fresh_ret and isinstance(c.ret, ty.RefT):
                 ret = self.alloc_obj(st, c.ret.cls)
+            elif c.extra.get("returns") is not None:
+                # functional contract: the result is *defined* by a term over the pre-state (the body is proved equal to it,
+                # obligation ensures/returns); the caller computes with the definition instead of an opaque constant
+                from .views import unwrap as _unwrap
+                ret = self.coerce(c.ret, _unwrap(c.extra["returns"](oldv)), node)
+                self.assume_wf(st, c.ret, ret)
             else:
                 ret = ty.fresh(c.ret, f"ret_{fi.node.name}")
                 self.assume_wf(st, c.ret, ret)
-        oldv = self.view(old, targs)
         newv = self.view(st, targs)
         from .views import wrap
+        # callers may be shown a weaker contract: only the sub-clauses with these tag prefixes (chosen by the callee - export_tags - or by
+        # the function under verification for one of its callees - callee_views)
+        export = getattr(self, "cur_views", {}).get(c.qualname, c.extra.get("export_tags"))
         for cl in (c.iface if iface_only else c.ensures):
             for tag, g in self.eval_clauses(cl.fn, oldv, newv, wrap(self, st, ret)):
+                if export is not None and not any(tag.startswith(x) for x in export):
+                    continue
                 st.assume(self.goal_of(g))
         self.oblige(st, f"call@L{getattr(node, 'lineno', 0)}/{name}/canary", z3.BoolVal(False), node, kind="canary")
         res.append(Out("val", ret, st))
@@ -1757,6 +1777,7 @@ class Exec:
         if c is None:
             raise Unsupported(f"no contract for {qualname}" + (f" @ {recv}" if recv else ""))
         self.cur_fn = qualname.split("acnportal.")[-1] + (f"@{recv}" if recv else "")
+        self.cur_views = c.extra.get("callee_views", {})
         self.cur_props = tuple(props)
         n0 = len(self.obls)
         st, bound = self.initial_state(c, fi)
@@ -1798,6 +1819,11 @@ class Exec:
             if o.kind == "return":
                 if c.ret is not None and (o.val is not None or isinstance(c.ret, ty.OptT)) and not isinstance(c.ret, ty.RefT):
                     o.val = self.coerce(c.ret, self.to_storable(o.val), fi.node)
+                if c.extra.get("returns") is not None:
+                    from .views import unwrap as _unwrap
+                    spec_val = self.coerce(c.ret, _unwrap(c.extra["returns"](oldv)), fi.node)
+                    for tag, g in self.value_equal_clauses(c.ret, o.val, spec_val):
+                        self.oblige(o.st, f"ensures/returns.{tag}/{pid}", g, fi.node, props=tuple(c.extra.get("returns_props", ())) or self.cur_props)
                 for cl in c.ensures:
                     for tag, g in self.eval_clauses(cl.fn, oldv, newv, wrap(self, o.st, o.val)):
                         nm = cl.tag if tag.startswith("#") else f"{cl.tag}.{tag}"
@@ -1823,6 +1849,21 @@ class Exec:
         if n_paths == 0:
             self.oblige(entry, "no-feasible-path", z3.BoolVal(False), fi.node)
         return self.obls[n0:]
+
+    def value_equal_clauses(self, t, a, b):
+        """observable equality of two values of type t: same shape, equal entries inside the shape"""
+        if t is ty.Mat:
+            i, j = z3.Int(ty.fresh_name("ei")), z3.Int(ty.fresh_name("ej"))
+            return [("rows", a.rows == b.rows), ("cols", a.cols == b.cols),
+                    ("entries", ty.FA([i, j], z3.Implies(z3.And(i >= 0, i < b.rows, j >= 0, j < b.cols), a.at(i, j) == b.at(i, j))))]
+        if t is ty.CMat:
+            return [("re." + k, g) for k, g in self.value_equal_clauses(ty.Mat, a.re, b.re)] + \
+                   [("im." + k, g) for k, g in self.value_equal_clauses(ty.Mat, a.im, b.im)]
+        if isinstance(t, ty.SeqT) and len(t.elem.comps()) == 1:
+            i = z3.Int(ty.fresh_name("ei"))
+            return [("len", a.len == b.len),
+                    ("entries", ty.FA([i], z3.Implies(z3.And(i >= 0, i < b.len), ty.sel(a.arrs[0], i) == ty.sel(b.arrs[0], i))))]
+        return [("value", ty.eq_values(t, a, b))]
 
     def unchanged_obligations(self, old: State, new: State, label, pid, node):
         for k, a in new.heap.items():
